@@ -65,7 +65,8 @@ def run(ctx: Ctx):
               '...)) run over shards rebuilt from recorded state and over'
               ' ranges of merged sequences: the rebuilt shard is the recorded'
               ' one incl. its configuration (R-C09-2) and a range never reads'
-              ' past its stop (R-C09-6)', _c09_shared, min_instances=5)
+              ' past its stop (R-C09-6); and the shards ARE a partition: shard() computes the'
+              ' balanced contiguous split for all (n, K, k) (R-C09-1)', _c09_shared, min_instances=12)
 
 
 def _c04_shared(sub, m):
@@ -78,6 +79,7 @@ def _c09_shared(sub):
   from mlmverif.props import c09
   sub.guard(c09.r2)
   sub.guard(c09.r6)
+  sub.guard(c09.r1)
 
 
 def r1(ctx: Ctx):
